@@ -46,7 +46,8 @@ Theorem C01_call_trees : forall f w c subs w' fl,
   process f w c subs = (Ok w', fl) ->
   pinv w -> Forall small_call subs ->
   (String.eqb c PM = true -> pm_list_ok w subs) ->
-  pinv w' /\ w_tf_fee w' = w_tf_fee w /\
+  (String.eqb c PM = false -> pm_buffer (w_pm w) = None) ->
+  pinv w' /\ w_tf_fee w' = w_tf_fee w /\ pm_buffer (w_pm w') = None /\
   forall d, slackP w d - (if String.eqb c PM then outP (w_tf_fee w) subs d else 0) <= slackP w' d.
 Proof. exact process_pool. Qed.
 
